@@ -1647,6 +1647,24 @@ class Exec(Interp):
                     if good not in v[2]:
                         return [(st, self.mk_bool(st, not pos))]
                     return [(st, self.mk_bool(st))]
+                if name == 'unwrap_or_default' and v and v[0] == 'adt' and v[2] is not None and len(A) == 1:
+                    # Some(x) -> x; None / Err -> Default::default() of the payload type (0 for the numeric types)
+                    outs = []
+                    good = 'Ok' if v[1].endswith('Result') else 'Some'
+                    dty = fr.body.local_ty(t['dest']['l']) if not t['dest']['p'] else None
+                    if good in v[2]:
+                        outs.append((st.copy(), st.cells[v[3][good]['0']]))
+                    if v[2] - {good}:
+                        s2 = st.copy()
+                        if dty in INT_RANGE:
+                            outs.append((s2, self.mk_const_int(s2, dty, 0)))
+                        elif dty in ('f64', 'f32'):
+                            outs.append((s2, self.f_const(0.0)))
+                        elif dty == 'bool':
+                            outs.append((s2, self.mk_bool(s2, False)))
+                        else:
+                            outs.append((s2, self.dest_top(s2, fr, t)))
+                    return outs
                 if name == 'unwrap_or_else' and v and v[0] == 'adt' and v[2] is not None and len(A) == 2:
                     outs = []
                     good = 'Ok' if v[1].endswith('Result') else 'Some'
